@@ -280,6 +280,9 @@ class RM:
         return _NoopSavepoint()
 
 
+BEHAVIOUR_S = 240          # no behaviour of the quick or thorough tier takes a tenth of this
+
+
 class Blocked(BaseException):
     """a call that must return did not (a commit lock left held by an earlier failed commit)"""
 
@@ -551,9 +554,16 @@ class ConnReplayer:
                 if len(h) < 8:
                     break
                 ol = u64(h)
+                if ol > 64:
+                    # not a record of the savepoint store (oids are 8 bytes): the file is damaged
+                    raise Mismatch('tmp.file', 'well-formed records', 'oid length %d at position %d' % (ol, pos))
                 oid = f.read(ol)
                 h2 = f.read(16)
+                if len(h2) < 16:
+                    raise Mismatch('tmp.file', 'well-formed records', 'record cut short at position %d' % pos)
                 size = u64(h2[8:])
+                if size > (1 << 24):
+                    raise Mismatch('tmp.file', 'well-formed records', 'data length %d at position %d' % (size, pos))
                 data = f.read(size)
                 out.append((pos, oid, h2[:8], data))
                 pos += 8 + ol + 16 + size
@@ -1166,9 +1176,34 @@ def replay_path(job):
             res['mismatch'] = {'step': 0, 'action': 'Init', 'args': [], 'where': m.where, 'spec': m.spec, 'impl': m.impl,
                                'role': '', 'prefix': []}
         else:
-            res['completed'] = run_path(rp, steps[1:], res)
+            # a watchdog for the whole behaviour, independent of the per-call SIGALRM deadlines (which cancel each
+            # other when nested): a timer thread sends a real SIGUSR1 to the main thread, whose handler raises
+            import signal
+            import threading
+
+            def _usr1(*_a):
+                raise Blocked('the behaviour')
+            armed = threading.current_thread() is threading.main_thread()
+            if armed:
+                old = signal.signal(signal.SIGUSR1, _usr1)
+                timer = threading.Timer(BEHAVIOUR_S, lambda: signal.pthread_kill(threading.main_thread().ident, signal.SIGUSR1))
+                timer.daemon = True
+                timer.start()
+            try:
+                res['completed'] = run_path(rp, steps[1:], res)
+            except Blocked:
+                res['mismatch'] = {'step': len(res.get('sig', ())), 'action': 'behaviour', 'args': [], 'where': 'call.blocked',
+                                   'spec': 'returns', 'impl': 'the behaviour did not finish within %ss' % BEHAVIOUR_S,
+                                   'role': '', 'prefix': list(res.get('sig', ()))[-20:]}
+            finally:
+                if armed:
+                    timer.cancel()
+                    signal.signal(signal.SIGUSR1, old)
     finally:
         res['calls'] = rp.calls
-        rp.close()
+        try:
+            rp.close()
+        except Blocked:
+            pass
     res.pop('init_state')
     return res
